@@ -28,6 +28,7 @@ func init() {
 			{"C11.R5", "q", "body length and terminator", c11r5},
 			{"C11.R6", "q", "error classification", c11r6},
 			{"C11.R9", "q", "per-command state reset", c11r9},
+			{"C11.R10", "q", "reply shapes: every line CRLF-terminated, VALUE blocks closed by END", c11r10},
 			{"C11.R8", "q", "no lock across blocking channel operations", c11r8},
 			{"C15.R1", "q", "shared: bucket used only when READY (otherwise nil dereference ⇒ contained panic, no reply)", c15r1},
 		},
@@ -811,4 +812,118 @@ func c11r8(c *Ctx) {
 	if n == 0 {
 		c.undec(R, "channel operations", "none found")
 	}
+}
+
+// c11r10: structural well-formedness of Response.Write.
+func c11r10(c *Ctx) {
+	const R = "C11.R10"
+	f := c.fn(R, "memcache.Response.Write")
+	if f == nil {
+		return
+	}
+	info := f.Info()
+	cases := map[string]*ast.CaseClause{}
+	ast.Inspect(f.Decl.Body, func(n ast.Node) bool {
+		sw, ok := n.(*ast.SwitchStmt)
+		if !ok || sw.Tag == nil || !prog.IsField(info, "memcache.Response.Status")(prog.Unparen(sw.Tag)) {
+			return true
+		}
+		for _, cs := range sw.Body.List {
+			cc := cs.(*ast.CaseClause)
+			if cc.List == nil {
+				cases["<default>"] = cc
+			}
+			for _, e := range cc.List {
+				if v, ok := prog.ConstString(info, e); ok {
+					cases[v] = cc
+				}
+			}
+		}
+		return false
+	})
+	if cases["VALUE"] == nil || cases["<default>"] == nil {
+		c.undec(R, f.Key, "VALUE / default clauses not recognised")
+		return
+	}
+	// the last thing every clause writes ends with CRLF
+	lastLit := func(cc *ast.CaseClause) (string, bool) {
+		last, found := "", false
+		for _, st := range cc.Body {
+			ast.Inspect(st, func(y ast.Node) bool {
+				if _, isLoop := y.(*ast.RangeStmt); isLoop && y != ast.Node(st) {
+					return true
+				}
+				if call, ok := y.(*ast.CallExpr); ok {
+					switch prog.CalleeKey(info, call) {
+					case "io.WriteString", "fmt.Fprintf", "memcache.WriteFull", "memcache.writeLine":
+						for _, a := range call.Args[1:] {
+							if v, isS := prog.ConstString(info, a); isS {
+								last, found = v, true
+							} else if cl, isCL := prog.Unparen(a).(*ast.CallExpr); isCL && len(cl.Args) == 1 {
+								if v, isS := prog.ConstString(info, cl.Args[0]); isS {
+									last, found = v, true
+								}
+							}
+						}
+					}
+				}
+				return true
+			})
+		}
+		return last, found
+	}
+	for name, cc := range cases {
+		l, ok := lastLit(cc)
+		c.check(ok && strings.HasSuffix(l, "\r\n"), R, f.Key+": clause "+name+" ends its reply with CRLF", c.pos(cc), "last literal written ends with \\r\\n", "the `"+name+"` reply is not terminated by CRLF: the client keeps waiting for the end of the line and every later reply is misparsed")
+	}
+	// VALUE: per item header with key, flag, len(body); body; CRLF; END after the loop
+	vc := cases["VALUE"]
+	var rng *ast.RangeStmt
+	ast.Inspect(vc, func(y ast.Node) bool {
+		if r, ok := y.(*ast.RangeStmt); ok && prog.MentionsField(info, r.X, "memcache.Response.Items") {
+			rng = r
+		}
+		return true
+	})
+	if rng == nil {
+		c.viol(R, f.Key+": VALUE block per item", c.pos(vc), "the VALUE reply no longer iterates over the response items")
+		return
+	}
+	hdr, body := false, false
+	for _, call := range f.CallsIn(rng.Body, "fmt.Fprintf") {
+		if v, ok := prog.ConstString(info, call.Expr.Args[1]); ok && strings.HasPrefix(v, "VALUE %s %d %d") && strings.HasSuffix(v, "\r\n") {
+			// length argument is len(item.Body)
+			for _, a := range call.Expr.Args[2:] {
+				if cl, isCL := prog.Unparen(a).(*ast.CallExpr); isCL && prog.CalleeKey(info, cl) == "builtin.len" && prog.MentionsField(info, cl.Args[0], "cmem.CArray.Body") {
+					hdr = true
+				}
+			}
+		}
+	}
+	for _, call := range f.CallsIn(rng.Body, "memcache.WriteFull") {
+		if prog.MentionsField(info, call.Expr.Args[1], "cmem.CArray.Body") {
+			body = true
+		}
+	}
+	c.check(hdr && body, R, f.Key+": VALUE <key> <flags> <len(body)> CRLF body CRLF per item", c.pos(rng), "header carries len(item.Body); body written in full", "the per-item VALUE block does not announce exactly len(body) bytes and then write the body: values are not transferred byte-exactly")
+	end := false
+	for _, st := range vc.Body {
+		if st.Pos() > rng.End() {
+			for _, call := range f.CallsIn(st, "io.WriteString") {
+				if v, ok := prog.ConstString(info, call.Expr.Args[1]); ok && v == "END\r\n" {
+					end = true
+				}
+			}
+		}
+	}
+	c.check(end, R, f.Key+": END after the items", c.pos(vc), "END\\r\\n after the loop", "a get reply is not closed by END: the client waits for more values")
+	// noreply writes nothing
+	nr := false
+	ast.Inspect(f.Decl.Body, func(y ast.Node) bool {
+		if is, ok := y.(*ast.IfStmt); ok && prog.IsField(info, "memcache.Response.Noreply")(prog.Unparen(is.Cond)) && f.Terminates(is.Body) && len(f.CallsIn(is.Body)) == 0 {
+			nr = true
+		}
+		return true
+	})
+	c.check(nr, R, f.Key+": noreply writes nothing", f.Pos(), "if resp.Noreply { return nil }", "a noreply response is written")
 }
